@@ -186,6 +186,12 @@ func runC02(c *Check) {
 			if diff == "log" && g.dynIntoTLA() && sortedLines(native.Log) == sortedLines(b.Log) {
 				key = "dynamic-import-of-module-with-top-level-await-starts-synchronously"
 			}
+			if diff == "log" && g.throwIn >= 0 && !g.mods[g.throwIn].esm && g.dynAndOtherEdgeInto(g.throwIn) &&
+				strings.Join(native.Log, "\n") == strings.Join(dropReexecutions(b.Log, g.mods[g.throwIn].id), "\n") &&
+				(native.Err == nil) == (b.Err == nil) && (native.Err == nil || *native.Err == *b.Err) {
+				// differential: identical to native once the repeated evaluations of the throwing CommonJS module are removed
+				key = "import-of-commonjs-module-whose-evaluation-threw-evaluates-it-again"
+			}
 			if diff != "" {
 				c.Violation(key, map[string]interface{}{"kind": "bundle behaves differently from native loading (" + diff + ")", "graph": g.String(), "config": cfgName, "files": files, "native": native.String(), "bundle": b.String(), "bundle_code": trunc(cases[k].Files[cases[k].Entry], 5000)})
 			}
@@ -193,6 +199,42 @@ func runC02(c *Check) {
 	})
 	c02Assets(c, pool, root)
 	c.Sample(map[string]interface{}{"graph": graphs[len(graphs)/2].String(), "files": graphs[len(graphs)/2].render()})
+}
+
+// dynAndOtherEdgeInto: module t is reached by an import() and by at least one more edge
+func (g *ggraph) dynAndOtherEdgeInto(t int) bool {
+	dyn, n := false, 0
+	for _, e := range g.edges {
+		if e.to == t {
+			n++
+			if e.kind == "dyn" {
+				dyn = true
+			}
+		}
+	}
+	return dyn && n >= 2
+}
+
+// dropReexecutions removes every evaluation of module id after the first one (lines "<id>:start" .. "<id>:end")
+func dropReexecutions(log []string, id string) []string {
+	var out []string
+	seen, skipping := false, false
+	for _, l := range log {
+		switch {
+		case l == `"`+id+`:start"`:
+			if seen {
+				skipping = true
+			}
+			seen = true
+		case l == `"`+id+`:end"` && skipping:
+			skipping = false
+			continue
+		}
+		if !skipping {
+			out = append(out, l)
+		}
+	}
+	return out
 }
 
 func sortedLines(l []string) string {
